@@ -12,6 +12,7 @@ from jaqalpaq.error import JaqalError
 from contracts_subcircuits import wf_stmt
 from contracts_gates import plain_value, wf_param
 from contracts_registers import wf_reg, size_known, size_of
+from contracts_equality import steq, pp_tree, pp_val
 
 
 @contract("core.algorithm.expand_macros:filter_float", props=["C04"])
@@ -282,6 +283,11 @@ class ExpLoop:
     def ensures_expanded(self, loop, result):
         return expanded(result, self.macros)
 
+    def ensures_fixed_point(self, loop, result):
+        # C10, idempotence: on a tree without macro calls and in normal form the pass returns a structurally equal tree
+        return implies(pp_tree(loop) and expanded(loop, self.macros) and nf(loop), steq(result, loop))
+
+    uses_lemmas = ("SteqReflexive",)
     raises_only = ("JaqalError",)
 
 
@@ -302,13 +308,22 @@ class ExpBlock:
         return wf_stmt(result) and nf(result)
 
     def inv_1(self, block, new_statements, _k):
-        return isinstance(new_statements, list) and forall_range(len(new_statements), lambda j: wf_stmt(new_statements[j]) and nf(new_statements[j])
-                                                                   and expanded(new_statements[j], self.macros)
-                                                                   and not same_kind_plain(new_statements[j], block._parallel))
+        return (isinstance(new_statements, list) and forall_range(len(new_statements), lambda j: wf_stmt(new_statements[j]) and nf(new_statements[j])
+                                                                    and expanded(new_statements[j], self.macros)
+                                                                    and not same_kind_plain(new_statements[j], block._parallel))
+                # fixed point: as long as the input has no macro call and is in normal form nothing is spliced - one
+                # statement per child, each structurally equal to its child
+                and implies(pp_tree(block) and expanded(block, self.macros) and nf(block),
+                            len(new_statements) == _k and forall_range(_k, lambda j: steq(new_statements[j], block._statements[j]))))
 
     def ensures_expanded(self, block, result):
         return expanded(result, self.macros)
 
+    def ensures_fixed_point(self, block, result):
+        # C10, idempotence of expand_macros as circuit equality: a second application returns an equal tree
+        return implies(pp_tree(block) and expanded(block, self.macros) and nf(block), steq(result, block))
+
+    uses_lemmas = ("SteqReflexive",)
     raises_only = ("JaqalError",)
 
 
@@ -324,6 +339,10 @@ class ExpGate:
     def ensures_expanded(self, gate, result):
         return expanded(result, self.macros)
 
+    def ensures_fixed_point(self, gate, result):
+        return implies(pp_tree(gate) and expanded(gate, self.macros), steq(result, gate))
+
+    uses_lemmas = ("SteqReflexive",)
     raises_only = ("JaqalError",)
 
 
